@@ -42,6 +42,8 @@ type Config struct {
 	// ClientPIDBase: the harness's clients number their own packets from this value + 1 (default 0). Properties that
 	// are not about identifier collisions between the two directions set it high, away from the broker's 1, 2, 3, ...
 	ClientPIDBase uint16 `json:"client_pid_base,omitempty"`
+	// WriteDelayUS: every write the broker makes on a connection takes this many microseconds (slow network)
+	WriteDelayUS int `json:"write_delay_us,omitempty"`
 }
 
 // LedgerRule is one auth rule of the bundled ledger hook: exact username and password, allow or deny.
@@ -400,6 +402,7 @@ func (c *Config) options() *mqtt.Options {
 func NewRun(c *Case, extraHooks ...mqtt.Hook) *Run {
 	b := sim.NewBroker(c.Cfg.options())
 	b.FreeTeardown = c.Cfg.FreeTeardown
+	b.WriteDelay = time.Duration(c.Cfg.WriteDelayUS) * time.Microsecond
 	switch c.Cfg.Auth {
 	case "", "allow-all":
 		_ = b.S.AddHook(new(auth.AllowHook), nil)
